@@ -4,6 +4,7 @@ import atexit, hashlib, json, os, re, shutil, subprocess, sys, tempfile, time
 VERIF = os.path.dirname(os.path.dirname(os.path.abspath(__file__)))
 REPO = os.environ.get('VERIF_REPO', '/repo')
 SPECS = os.path.join(VERIF, 'specs')
+EVID = os.environ.get('VERIF_EVIDENCE_DIR', os.path.join(VERIF, 'evidence'))
 GOENV = dict(GOFLAGS='-mod=mod', GOPROXY='off', GOSUMDB='off', GOTOOLCHAIN='local')
 GO = 'go1.26'
 NCPU = os.cpu_count() or 4
@@ -56,7 +57,7 @@ class TLCResult:
             self.error = m.group(1) if m else ('rc=%d' % rc)
 
 
-def tlc(specdir, module, cfg_text, extra=(), timeout=1200, workers=None, files=(), name=None, java_opts=''):
+def tlc(specdir, module, cfg_text, extra=(), timeout=1200, workers=None, files=(), name=None, java_opts='', defs=None):
     """Run TLC in a fresh scratch copy of specdir with the given cfg text; returns TLCResult.
     files: extra (path, name) pairs copied next to the spec (trace files)."""
     d = subdir('tlc-%s-%d' % (name or module, int(time.time() * 1000) % 10 ** 9))
@@ -65,6 +66,15 @@ def tlc(specdir, module, cfg_text, extra=(), timeout=1200, workers=None, files=(
             shutil.copy(os.path.join(specdir, f), d)
     for src, nm in files:
         shutil.copy(src, os.path.join(d, nm))
+    if defs:
+        # constants whose values are not expressible in a cfg file: wrapper module with definitions + "K <- MC_K"
+        with open(os.path.join(d, 'MC_' + module + '.tla'), 'w') as f:
+            f.write('---- MODULE MC_%s ----\nEXTENDS %s\n' % (module, module))
+            for k, v in defs.items():
+                f.write('MC_%s == %s\n' % (k, v))
+            f.write('====\n')
+        cfg_text = cfg_text.replace('CONSTANTS\n', 'CONSTANTS\n' + ''.join('  %s <- MC_%s\n' % (k, k) for k in defs), 1)
+        module = 'MC_' + module
     with open(os.path.join(d, 'MC.cfg'), 'w') as f:
         f.write(cfg_text)
     env = dict(os.environ)
@@ -137,7 +147,7 @@ def build_vh(tags=('verif',), race=False, asan=False, env_extra=None, name='vh')
         # mutation testing against a scratch worktree: private copy of the harness with the replace directive redirected
         h2 = os.path.join(scratch(), 'harness-src')
         if not os.path.exists(h2):
-            shutil.copytree(h, h2, ignore=shutil.ignore_patterns('go.sum', 'vh'))
+            shutil.copytree(h, h2, ignore=shutil.ignore_patterns('go.sum'))
             gm = open(os.path.join(h2, 'go.mod')).read().replace('=> /repo', '=> ' + os.path.realpath(REPO))
             open(os.path.join(h2, 'go.mod'), 'w').write(gm)
         h = h2
@@ -217,7 +227,7 @@ class Check:
 
     def finish(self, rule='', exhaustive=None, extra=None):
         wall = time.time() - self.t0
-        os.makedirs(os.path.join(VERIF, 'evidence', 'replays'), exist_ok=True)
+        os.makedirs(os.path.join(EVID, 'replays'), exist_ok=True)
         kf = known_findings()
         open_keys = {f['key']: f for f in kf if f.get('property') == self.prop and f.get('status') == 'open'}
         reported, known = [], []
@@ -242,13 +252,13 @@ class Check:
         self.cov['known_findings_hit'] = [v['key'] for v in known]
         ev = {'property_id': self.prop, 'tier': self.tier, 'seed': seed(), 'level': self.level, 'coverage': self.cov,
               'assumptions': self.assumptions, 'wall_s': round(wall, 2), 'violations': len(reported)}
-        with open(os.path.join(VERIF, 'evidence', self.prop + '.json'), 'w') as f:
+        with open(os.path.join(EVID, self.prop + '.json'), 'w') as f:
             json.dump(ev, f, indent=1, default=str)
             f.write('\n')
         for v in known:
             print('KNOWN-FINDING: property=%s %s' % (self.prop, open_keys[v['key']].get('what', v['what'])))
         for i, v in enumerate(reported[:20]):
-            path = os.path.join(VERIF, 'evidence', 'replays', '%s-%s-%d.json' % (self.prop, re.sub(r'[^A-Za-z0-9_.-]', '_', v['key'])[:60], i))
+            path = os.path.join(EVID, 'replays', '%s-%s-%d.json' % (self.prop, re.sub(r'[^A-Za-z0-9_.-]', '_', v['key'])[:60], i))
             with open(path, 'w') as f:
                 json.dump({'property': self.prop, 'key': v['key'], 'what': v['what'], 'replay': v['replay']}, f, indent=1, default=str)
             print('VIOLATION property=%s replay=%s' % (self.prop, path))
